@@ -15,6 +15,10 @@ Inductive case :=
    [t0],[t1] = wall clock (ns) just before / after the call *)
 | Create (id : N) (iptab : list (string * (bool * list N))) (env : auth_env) (rs : list auth_result)
          (na : option node_auth) (cfg : ca_cfg) (rq : request) (t0 t1 : Z) (obs : observed)
+(* companion of a [Create] case whose selected identities contain a comma: same data, checks only
+   "SAN entries = the identities" (the part of the oracle that [Create] leaves to this case) *)
+| CreateSans (id : N) (iptab : list (string * (bool * list N))) (env : auth_env) (rs : list auth_result)
+         (na : option node_auth) (cfg : ca_cfg) (rq : request) (t0 t1 : Z) (obs : observed)
 (* JwtAuthenticator.Authenticate with a token carrying these claims; [verified] = the token is one
    go-oidc's verifier accepts (right issuer and key, not expired) *)
 | Oidc (id : N) (verified : bool) (td : string) (audiences : list string) (sub : string) (aud : aud_claim) (obs : authn_out)
@@ -34,7 +38,7 @@ Inductive case :=
 
 Definition case_id c :=
   match c with
-  | Create id _ _ _ _ _ _ _ _ _ => id | Oidc id _ _ _ _ _ _ => id | KubeJwt id _ _ _ _ => id
+  | Create id _ _ _ _ _ _ _ _ _ => id | CreateSans id _ _ _ _ _ _ _ _ _ => id | Oidc id _ _ _ _ _ _ => id | KubeJwt id _ _ _ _ => id
   | CertAuth id _ _ => id | Xfcc id _ _ _ _ _ => id | NewCA id _ _ _ _ _ => id
   | San id _ _ _ => id | ParseId id _ _ => id
   end.
@@ -123,6 +127,7 @@ Definition create_model_ok iptab env rs na cfg rq (t0 t1 : Z) (obs : observed) :
 Definition model_ok (c : case) : bool :=
   match c with
   | Create _ iptab env rs na cfg rq t0 t1 obs => create_model_ok iptab env rs na cfg rq t0 t1 obs
+  | CreateSans _ _ _ _ _ _ _ _ _ _ => true
   | Oidc _ verified td auds sub aud obs =>
       authn_eqb (if verified then oidc_authenticate td auds sub aud else AErr) obs
   | KubeJwt _ td found tr obs => authn_eqb (kube_jwt_authenticate td found tr) obs
@@ -195,7 +200,11 @@ Definition spec_sans (ipf : ip_parser) (ids : list string) : list san := map (cl
 
 Definition ceil_s (z : Z) : Z := (((z + second - 1) / second) * second)%Z.
 
-Definition create_prop_ok iptab env rs na cfg rq (t0 t1 : Z) (obs : observed) : bool :=
+(* [part]: 0 = everything; 1 = everything, but the SAN-exactness test is left to the companion
+   [CreateSans] case when a selected identity contains a comma; 2 = only SAN exactness *)
+Definition has_comma_id (ids : list string) : bool := existsb (contains_char comma) ids.
+
+Definition create_prop_part (part : N) iptab env rs na cfg rq (t0 t1 : Z) (obs : observed) : bool :=
   match obs with
   | OPanic => false
   | OOther _ => false
@@ -206,7 +215,9 @@ Definition create_prop_ok iptab env rs na cfg rq (t0 t1 : Z) (obs : observed) : 
           match spec_identities na rq u with
           | None => false                               (* signed an unauthorised impersonation *)
           | Some ids =>
-              list_eqb san_eqb (c_sans leaf) (spec_sans (ip_lookup iptab) ids) &&   (* exactly the identities *)
+              (if N.eqb part 1 && has_comma_id ids then true
+               else list_eqb san_eqb (c_sans leaf) (spec_sans (ip_lookup iptab) ids)) &&   (* exactly the identities *)
+              (N.eqb part 2 ||
               negb (c_is_ca leaf) && N.eqb (N.land (c_key_usage leaf) 32) 0 &&      (* never a CA / CertSign *)
               c_bc_valid leaf &&
               N.eqb (c_key leaf) (csr_key (rq_csr rq)) &&                           (* binds the CSR key *)
@@ -219,7 +230,7 @@ Definition create_prop_ok iptab env rs na cfg rq (t0 t1 : Z) (obs : observed) : 
                  up to a second; with default <= max this is the configured maximum *)
               (c_not_after leaf - (c_not_before leaf + clock_skew) <=?
                  ceil_s (Z.max (ca_max_ttl cfg) (ca_default_ttl cfg)))%Z &&
-              (t0 - second <? c_not_before leaf + clock_skew)%Z && (c_not_before leaf + clock_skew <=? t1)%Z
+              (t0 - second <? c_not_before leaf + clock_skew)%Z && (c_not_before leaf + clock_skew <=? t1)%Z)
           end
       end
   | OResult _ => true
@@ -229,7 +240,8 @@ Definition authn_no_panic (o : authn_out) : bool := match o with APanic => false
 
 Definition prop_ok (c : case) : bool :=
   match c with
-  | Create _ iptab env rs na cfg rq t0 t1 obs => create_prop_ok iptab env rs na cfg rq t0 t1 obs
+  | Create _ iptab env rs na cfg rq t0 t1 obs => create_prop_part 1 iptab env rs na cfg rq t0 t1 obs
+  | CreateSans _ iptab env rs na cfg rq t0 t1 obs => create_prop_part 2 iptab env rs na cfg rq t0 t1 obs
   | Oidc _ verified td auds sub aud obs =>
       authn_no_panic obs &&
       match obs with
